@@ -103,7 +103,7 @@ def run(ctx):
             if a1 != a2:
                 ctx.violation(dict(kind='second-get_info-differs', file=os.path.basename(f), how='p = ReplayParser(file); p.get_info() twice: the two results must be equal (tools.digest.canon)')); break
         # ... and the log level: a parse under debug logging (every record formatted) equals the fresh-process result
-        for f in [x for x in pool if os.path.basename(x).startswith('w-')][:2] + [x for x in pool if x.endswith('.wotreplay')][:1]:
+        for f in sorted((x for x in pool if os.path.basename(x).startswith('w-1')), key=lambda x: [int(y) if y.isdigit() else 0 for y in os.path.basename(x)[2:].split('.')[0].split('_')])[-2:] + [x for x in pool if x.endswith('.wotreplay')][:1]:
             with common.debug_logging(): dl = digest.digest_of(f, False)
             ctx.case(('debug-logging', os.path.basename(f))); ctx.count('call:under-debug-logging')
             if dl != fresh[False][f]:
